@@ -66,6 +66,12 @@ def run_tree_case(ctx):
     beta = min(beta, 6.0 / hn)
     ref = dense.gibbs(H, beta, mask)
     scheme = str(rng.choice(["prop_and_compress_tdrk4", "tdvp_ps2"], p=[0.6, 0.4]))
+    if scheme == "tdvp_ps2" and any(all(trees.is_dummy(b) for b in node.basis_sets) for node in tree.node_list):
+        # a two-site update cannot grow the bonds around a node without physical index (its other bonds are one in the
+        # product start state): from the bond-dimension-one purified state the scheme cannot entangle the sub-trees such a node
+        # connects, whatever the step - a limitation of the method, not of its implementation
+        ctx.cls("tree-ps2-skipped:virtual-node")
+        scheme = "prop_and_compress_tdrk4"
     ctx.cls("tree-scheme:" + scheme)
     ctx.describe({"kind": "tree-thermal", "model": desc, "tree": tdesc, "beta": beta, "beta*||H||": beta * hn, "scheme": scheme})
     init = ctx.lib(max_entangled_ex, aux, what="tn.max_entangled_ex")
